@@ -1,24 +1,226 @@
-"""C37 - compliant contact forces follow their documented laws (thin wrapper; extended by the coordinator).
-Currently runs the HuntCrossley contact-loop control slice (checks/part_c37_loop.py)."""
-import os
+"""C37 - Compliant contact forces follow their documented laws (HuntCrossleyForce only).
+Part A (CBMC contracts, part_c37_loop): contact loop structure for any number of contacts.
+Part B (route M3): the per-contact Hunt-Crossley / Hollars law of the real calcForce body,
+transliterated each run, on symbolic contacts, materials, poses and velocities."""
+import os, re, json, z3
 from vlib import *
 from extract import *
+import symlib as S
+from symlib import *
+import forcelib as FL
 import part_c37_loop
 
 PID = "C37"
 META = dict(
-    category="other",
-    text=("CBMC contract with loop invariant and ghost contact index on the control slice of HuntCrossleyForceImpl::calcForce cut from the real "
-          "source: every point contact with positive Hunt-Crossley force gets its pair of body forces (-force on body1, +force on body2) applied "
-          "exactly once, nothing is applied for f <= 0 or non-point contacts, whatever the other contacts of the set do."),
-    note="Assumed: container/contact-geometry stubs; the float law is abstracted in this part (decided by back end B elsewhere).",
-    technique="CBMC function + loop contracts (dfcc) on a mechanically extracted control slice",
+    category="proof",
+    text=("HuntCrossleyForceImpl::calcForce: (A) loop contract with ghost contact index on the control slice cut from the real source: every point contact with positive force gets "
+          "its (-force on body1, +force on body2) pair exactly once whatever the other contacts do, nothing for f<=0 or non-point contacts, any number of contacts; "
+          "(B) per-contact law on the transliterated body, every branch: normal component N>0 (never attractive) with N^2 == (16/9) R k^3 x^3 (1+3/2 c xdot)^2 i.e. the documented "
+          "Hertz/Hunt-Crossley law with k=E^(2/3) combination s1=k2/(k1+k2), c=c1 s1+c2 s2; friction in the tangent plane, opposing slip on each body, magnitude == documented "
+          "Hollars formula with u=2u1u2/(u1+u2); forces on the two bodies equal and opposite at one ground point; pe == 2/5 fH x. Other contact models are not covered."),
+    note="Assumes real arithmetic and the mocked contact/matter API contracts listed; trusts CBMC, z3/cvc5, extractor/transliterator rules.",
+    technique="CBMC loop contract on extracted control slice + symbolic execution of transliterated real code over the reals with SMT (z3 QF_NRA)",
     design_ref="4 C37")
 
 
+def plain(x): return S.vmap(lambda e: D(val(e)), x)
+
+
+class SizedList(list):
+    def size(self): return len(self)
+
+
+def make_contact(i, b1, b2):
+    class Ct: pass
+    c = Ct(); c.isPoint = True
+    c.depth = D(z3.Real("x%d" % i)); c.n = Vec(*[z3.Real("n%d_%d" % (i, k)) for k in range(3)])
+    c.loc = Vec(*[z3.Real("l%d_%d" % (i, k)) for k in range(3)]); c.rad = D(z3.Real("R%d" % i))
+    c.getDepth = lambda: c.depth; c.getNormal = lambda: c.n; c.getLocation = lambda: c.loc
+    c.getEffectiveRadiusOfCurvature = lambda: c.rad
+    c.getSurface1 = lambda: b1; c.getSurface2 = lambda: b2
+    c.side = [val(c.n.normSqr()) == 1, val(c.depth) > 0, val(c.rad) > 0]
+    return c
+
+
+class LiteBody:
+    """matter API contract reduced to what the Hunt-Crossley law needs: a body origin p, and the
+    ground-frame velocity of the body point that coincides with a given ground point (fresh symbols)"""
+    def __init__(self, ix, applied):
+        self.ix, self.applied = ix, applied
+        self.p = Vec(*[z3.Real("p%d_%d" % (ix, k)) for k in range(3)])
+        self.vpt = Vec(*[z3.Real("vpt%d_%d" % (ix, k)) for k in range(3)])
+    def findStationAtGroundPoint(self, state, x): return FL.GroundStation(x - self.p)
+    def findStationVelocityInGround(self, state, st):
+        assert isinstance(st, FL.GroundStation)
+        return self.vpt
+    def applyForceToBodyPoint(self, state, st, force, bodyForces):
+        assert isinstance(st, FL.GroundStation)
+        self.applied.append((self.ix, st.vecG + self.p, force))
+
+
+def law(ctx, only_reaction=False, U="huntcrossley.law"):
+    B, C = FL.build(ctx, want=("huntcrossley",))
+    st = object()
+    applied = []
+    bodies = {1: LiteBody(1, applied), 2: LiteBody(2, applied)}
+    class Prm: pass
+    prm = {}
+    pside = []
+    for s_ in (1, 2):
+        p = Prm()
+        for nm in ("stiffness", "dissipation", "staticFriction", "dynamicFriction", "viscousFriction"):
+            v = z3.Real("%s%d" % (nm, s_)); setattr(p, nm, D(v))
+            pside.append(v > 0 if nm == "stiffness" else v >= 0)
+        prm[s_] = p
+    vt = z3.Real("vt"); pside.append(vt > 0)
+    class Sub: pass
+    sub = Sub()
+    sub.getBody = lambda set_, surf: bodies[surf]
+    sub.getMySubsystemIndex = lambda: 0
+    class Cell: pass
+    e = C["HuntCrossley"](); e.subsystem, e.set, e.transitionVelocity = sub, 0, D(vt)
+    e.getParameters = lambda surf: prm[surf]; e.getTransitionVelocity = lambda: D(vt)
+    c0 = make_contact(0, 1, 2)
+    sub.getContacts = lambda state, set_: SizedList([c0])
+    def runit():
+        S.reset_env()
+        S.ENV.abstract_scalars = True          # opaque scalar factors of vectors; definitions in ENV.defs
+        del applied[:]
+        cell = Cell(); cell.v = D(0); e.peCell = cell
+        e.calcForce(st, None, None, None)
+        S.ENV.abstract_scalars = False
+        return cell, list(applied), (list(S.ENV.side), list(S.ENV.defs))
+    k1, k2 = prm[1].stiffness, prm[2].stiffness
+    s1 = k2 / (k1 + k2); kk = k1 * s1
+    cc = prm[1].dissipation * s1 + prm[2].dissipation * (1 - s1)
+    x, n, Rr = c0.depth, c0.n, c0.rad
+    loc = c0.loc + (x * (Q("0.5") - s1)) * n                     # contact point shifted by relative stiffness
+    v = bodies[1].vpt - bodies[2].vpt; vn = dot(v, n); vtg = v - vn * n
+    growth = 1 + Q("1.5") * cc * vn
+    def comb(a, b):
+        return S.ITE(z3.And(val(a) == 0, val(b) == 0), D(0), 2 * a * b / (a + b))
+    seen = set(); npaths = 0
+    for path, script, (cell, app, (envside, defs)) in B.run_paths(runit, 6):
+        key = tuple(str(c_) for c_ in path)
+        if key in seen: continue
+        seen.add(key)
+        alld = [d_[2] for d_ in defs]
+        lets_ = [d_ for d_ in defs if d_[0] == "let"]
+        cond = pside + c0.side + envside + path + alld
+        s_ = z3.Solver(); s_.set("timeout", 10000); s_.add(*cond)
+        if s_.check() == z3.unsat: continue
+        npaths += 1
+        tag = "path%d" % npaths
+        T = 30000
+        FN = "HuntCrossleyForceImpl::calcForce"
+        if not app:
+            B.prove_bool("%s: no force applied only if 1 + 3/2 c xdot <= 0 (documented force not positive)" % tag, val(growth) <= 0, cond, U, FN, timeout_ms=T)
+            continue
+        B.prove_bool("%s: exactly one pair of applications" % tag, z3.BoolVal(len(app) == 2 and sorted(a_[0] for a_ in app) == [1, 2]), cond, U, FN)
+        (i1, pt1, f1), (i2, pt2, f2) = sorted(app, key=lambda a_: a_[0])
+        B.prove_eq("%s: force on body2 == -force on body1" % tag, f2, -f1, cond, U, FN, timeout_ms=T)
+        B.prove_eq("%s: both forces act at the documented contact point (body1)" % tag, pt1, loc, cond, U, FN, timeout_ms=T)
+        B.prove_eq("%s: both forces act at the documented contact point (body2)" % tag, pt2, loc, cond, U, FN, timeout_ms=T)
+        if only_reaction:
+            continue
+        force = f2
+        N = dot(force, n)
+        fr = force - N * n
+        # let-abstracted scalars, in order of creation: location shift, vnormal, f [, ffriction]
+        lets = [d_[1] for d_ in lets_]
+        friction = len(lets_) == 4
+        if len(lets_) not in (3, 4):
+            ctx.undecide("HuntCrossley law %s: unexpected number of let-abstracted scalars (%d)" % (tag, len(lets_)))
+            continue
+        recips = [d_[2] for d_ in defs if d_[0] == "recip"]
+        defs = [d_[2] for d_ in lets_]
+        tvn, tN = D(lets[1]), D(lets[2])
+        # minimal hypothesis sets (opaque / reveal): each goal gets only the definitions it needs
+        unitn = [val(n.normSqr()) == 1]
+        vtc = v - tvn * n                                   # the code's vtangent in terms of its own vnormal scalar
+        H_struct = unitn + [defs[1]]                        # n.n == 1, vnormal == v.n
+        H_f = pside + c0.side + envside + path + [defs[2]] + recips  # definition of f, path condition f > 0, sqrt and reciprocal definitions
+        if friction:
+            tG = D(lets[3])
+            vs = vtc.norm()                                 # same radicand term as the code's vslip -> same root variable
+            H_vs = [val(vs) >= 0, val(vs) * val(vs) == val(vtc.normSqr()), val(vs) != 0] + recips
+        else:
+            H_vs = []
+        B.prove_eq("%s: normal component of the applied force == f (the Hunt-Crossley scalar)" % tag, N, tN, H_struct + H_vs, U, FN, timeout_ms=T, minimal=True)
+        NisF = [val(N) == val(tN)]
+        B.prove_bool("%s: normal component N > 0 (never attractive)" % tag, val(N) > 0, H_f + NisF, U, FN, timeout_ms=T, minimal=True)
+        B.prove_eq("%s: f^2 == (16/9) R k^3 x^3 (1 + 3/2 c xdot)^2 (Hertz/Hunt-Crossley)" % tag, tN * tN,
+                   (Q("16.0") / Q("9.0")) * Rr * kk * kk * kk * x * x * x * growth * growth, H_f + [defs[1]], U, FN, timeout_ms=T, minimal=True)
+        B.prove_eq("%s: friction lies in the tangent plane" % tag, dot(fr, n), 0, unitn, U, FN, timeout_ms=T, minimal=True)
+        B.prove_eq("%s: friction is parallel to the code's slip velocity" % tag, cross(fr, vtc), Vec(0, 0, 0), NisF + H_vs, U, FN, timeout_ms=T, minimal=True)
+        B.prove_eq("%s: the code's slip velocity is the tangential part of v1-v2" % tag, vtc, vtg, H_struct, U, FN, timeout_ms=T, minimal=True)
+        if friction:
+            us, ud, uv = comb(prm[1].staticFriction, prm[2].staticFriction), comb(prm[1].dynamicFriction, prm[2].dynamicFriction), comb(prm[1].viscousFriction, prm[2].viscousFriction)
+            vr = vs / D(vt)
+            mu = S.ITE(val(vr) < 1, vr, D(1)) * (ud + 2 * (us - ud) / (1 + vr * vr)) + uv * vs
+            # friction == ffriction * (unit slip): lemma chain (each step small enough for nlsat)
+            rv = None
+            for d_ in recips:
+                if str(d_.arg(0).arg(1)) == str(val(vs)) or str(d_.arg(0).arg(0)) == str(val(vs)):
+                    rv = d_.arg(0).arg(0) if str(d_.arg(0).arg(1)) == str(val(vs)) else d_.arg(0).arg(1)
+            if rv is None:
+                ctx.undecide("HuntCrossley law %s: reciprocal of vslip not found among the let-definitions" % tag)
+                continue
+            coef = tG * D(rv)
+            B.prove_eq("%s: friction == (ffriction / vslip) * slip velocity" % tag, fr, coef * vtc, NisF, U, FN, timeout_ms=T, minimal=True)
+            B.prove_eq("%s: ((ffriction/vslip) slip) . slip == (ffriction/vslip) |slip|^2 (identity)" % tag, dot(coef * vtc, vtc), coef * vtc.normSqr(), [], U, FN, timeout_ms=T, minimal=True)
+            s_gen = z3.Real("slip_sq_generalised")
+            B.prove_eq("%s: (ffriction/vslip) s == ffriction vslip whenever vslip^2 == s and vslip*(1/vslip) == 1 (generalised)" % tag, coef * D(s_gen), tG * vs,
+                       [val(vs) * val(vs) == s_gen, rv * val(vs) == 1], U, FN, timeout_ms=T, minimal=True)
+            scal = pside + path + [defs[2], defs[3]] + H_vs[:1] + [vt > 0] + recips
+            B.prove_eq("%s: ffriction == f * [min(vs/vt,1)(ud+2(us-ud)/(1+(vs/vt)^2)) + uv vs], u=2u1u2/(u1+u2) (Hollars)" % tag, tG, tN * mu, scal, U, FN, timeout_ms=T, minimal=True)
+            B.prove_bool("%s: ffriction >= 0 when us >= ud (friction on body1 opposes its slip)" % tag, val(tG) >= 0,
+                         H_f + [val(tG) == val(tN * mu), val(us) >= val(ud), vt > 0] + H_vs, U, FN, timeout_ms=T, minimal=True)
+        else:
+            B.prove_eq("%s: no friction force without slip" % tag, fr, Vec(0, 0, 0), NisF + unitn, U, FN, timeout_ms=T, minimal=True)
+        light = H_f
+        B.prove_eq("%s: pe^2 == (4/25) x^2 (16/9) R k^3 x^3  (pe = 2/5 fH x)" % tag, D(val(cell.v)) * D(val(cell.v)), (Q("4.0") / Q("25.0")) * x * x * (Q("16.0") / Q("9.0")) * Rr * kk * kk * kk * x * x * x, light, U, FN, timeout_ms=T)
+        B.prove_bool("%s: pe >= 0" % tag, val(cell.v) >= 0, light, U, FN, timeout_ms=T)
+    if npaths < 3:
+        ctx.undecide("HuntCrossley law: only %d feasible paths explored" % npaths)
+    s_ = z3.Solver(); s_.add(*(pside + c0.side))
+    ctx.add(Obligation("guard:contact side conditions satisfiable", "guards", "z3", "discharged" if s_.check() == z3.sat else "undecided", 0, "reachability guard"))
+
+
 def main(ctx):
-    ctx.level = "other"
-    rep = part_c37_loop.run(ctx)
-    ctx.trust("cbmc/goto-cc/goto-instrument 6.11.0 (C front end), MiniSat")
-    ctx.explanation = "HuntCrossley contact loop: per-contact force application proved for an arbitrary number of contacts (loop contract, unbounded)."
-    return ctx.finish(replayer=rep)
+    ctx.level = "proof"
+    rep_loop = None
+    try:
+        rep_loop = part_c37_loop.run(ctx)
+    except ExtractionError as e:
+        ctx.undecide("extraction (loop slice): %s" % e)
+    try:
+        law(ctx)
+    except ExtractionError as e:
+        ctx.undecide("extraction (law): %s" % e)
+    ctx.trust("cbmc/goto-cc/goto-instrument 6.11.0 (C front end), MiniSat"); ctx.trust("z3 4.x / cvc5 1.0 (QF_NRA)")
+    ctx.trust("tools/extract.py + tools/translit.py rule tables (logged) and tools/symlib.py shim")
+    ctx.assume("machine arithmetic treated as mathematical (reals) in part B")
+    for a in FL.world_assumptions(): ctx.assume(a)
+    ctx.assume("contact geometry by contract: PointContact getters return depth>0, unit normal (from surface1 towards surface2), location, effective radius>0; materials: stiffness>0, other coefficients>=0, transition velocity>0")
+    ctx.assume("findStationAtGroundPoint followed by findStationVelocityInGround/applyForceToBodyPoint acts at the given ground point (R*~R == 1)")
+    ctx.not_decided += ["ElasticFoundationForce, CompliantContactSubsystem generators, SmoothSphereHalfSpaceForce, ExponentialSpringForce", "'vanish without penetration' (depends on the contact tracker producing contacts only when depth>0)",
+                        "friction limit as an inequality (the exact documented coefficient is proved instead)"]
+    ctx.explanation = "%d functions under contract; %d obligations." % (len(ctx.functions), len(ctx.obligations))
+    def rp(ob):
+        if ob.unit.startswith("huntcrossley.calcForce") and rep_loop:
+            return rep_loop(ob)
+        return replay(ctx, ob)
+    return ctx.finish(replayer=rp)
+
+
+_EXE = {}
+
+
+def replay(ctx, ob):
+    if "exe" not in _EXE:
+        src = os.path.join(REPO, "Simbody/src")
+        _EXE["exe"] = native_build(ctx, "c37_law_replay", os.path.join(VERIF, "replay/c37_law_replay.cpp"), libs=True,
+                                   extra_srcs=[os.path.join(src, "HuntCrossleyForce.cpp")], extra_inc=[src])
+    rc, o, e, t = run([_EXE["exe"], str(ctx.seed)], 300)
+    return dict(cmd="c37_law_replay %d" % ctx.seed, output=o[-3000:]), "REPRODUCED:" in o
